@@ -33,6 +33,9 @@ class Prop(PoolProp):
     anchors = ["windpyutils/parallel/pools.py", "windpyutils/parallel/maps.py", "windpyutils/parallel/workers.py",
                "windpyutils/buffers.py"]
     quick_runs = 200
+    real_module = "harness.realfmap"
+    real_scenarios = ("fmap_small", "fmap_big_results", "fmap_none_and_falsy", "fmap_falsy_results", "mulp_small", "mulp_big_results")
+    real_scenarios_quick = real_scenarios  # a fraction of a second each
     thorough_runs = 3000
     rule = ("FunctorMap: 1-4 workers, 1-3 consecutive calls on one instance with 0-10 items and chunk sizes 1-3 (incl. fewer "
             "items than workers, empty inputs, lazily produced input, every third result a falsy object; 40 % of the FunctorMap "
@@ -65,7 +68,8 @@ class Prop(PoolProp):
         mulp = rng.random() < 0.4
         ncalls = rng.choice([1, 1, 2] if mulp else [1, 2, 3])
         calls = [(rng.choice([0, 1, 2, 3, 4, 6, 10]), 1 if mulp else rng.choice([1, 1, 2, 3])) for _ in range(ncalls)]
-        return FCfg(rng.choice([1, 2, 2, 3, 4]), mulp, calls, exact=(not mulp and rng.random() < 0.4))
+        return FCfg(rng.choice([1, 2, 2, 3, 4]), mulp, calls, exact=(not mulp and rng.random() < 0.4),
+                    none_inputs=rng.random() < 0.25)
 
     def gen_chooser(self, rng):
         r = rng.random()
@@ -105,6 +109,8 @@ class Prop(PoolProp):
         for k, ((n, cs), res) in enumerate(zip(cfg.calls, env.results)):
             seen = []
             for v in res:
+                if v is None:
+                    continue
                 item = (v - 1) // 3 - k * 1000
                 ch = item // cs
                 if not seen or seen[-1] != ch:
@@ -114,6 +120,8 @@ class Prop(PoolProp):
         return f"out:{','.join(outs)} final:{1 if status == 'done' else 0} running:{','.join(map(str, running))}"
 
     def oracle(self, cfg, env, status, steps):
+        if status.startswith(("stuck:", "scheduler:")):
+            return None  # the run could not be controlled: nothing observed about the property (compare() reports it)
         exp = env.expected()
         for k, got in enumerate(env.results):
             complete = status == "done" or k < len(env.results) - 1
